@@ -121,7 +121,7 @@ func rulesC06(e *Engine, r *Report) {
 	r.Min("R06.2", "in-place writers in stage/cache (all on .part)", nw, 2)
 
 	// ---------------------------------------------------------------- R06.3
-	r.Rule("R06.3", "log ≺ move ≺ finalized ≺ companion removal in the deliverer; in fileutil.Move the final name appears only by Rename(<dst>.lck, <dst>) after a successful rename or copy into <dst>.lck, the source is removed only after the copy succeeded, and nil is returned only after the final rename succeeded")
+	r.Rule("R06.3", "log ≺ move ≺ finalized ≺ companion removal in the deliverer; in fileutil.Move the final name appears only by an atomic rename - of the source itself, or of <dst>.lck after a complete copy (other file system) -, the source is never parked under an intermediate name, the source is removed only after the copy succeeded, and nil is returned only after the final rename succeeded")
 	if fn := needFn(e, r, "R06.3", "stage.(*Stage).putFileAway"); fn != nil {
 		mv := "call(fileutil.Move)((p1.path + \".wait\"), §)"
 		cls := labeler(
@@ -149,16 +149,25 @@ func rulesC06(e *Engine, r *Report) {
 		lck, _ := e.ConstVal("fileutil", "LockExt")
 		tmp := "(p1 + " + lck + ")"
 		cls := labeler(
-			C("(call(os.Rename)(p0, "+tmp+") == nil)", "inTmp"),
-			C("(call(fileutil.Copy)(p0, "+tmp+") == nil)", "inTmp"),
+			C("(call(os.Rename)(p0, p1) == nil)", "inPlace"),
 			C("(call(fileutil.Copy)(p0, "+tmp+") == nil)", "copied"),
 			C("(call(os.Rename)("+tmp+", p1) == nil)", "inPlace"),
 		)
+		// F26: the source is never renamed to an intermediate name - between that rename and the next one the file
+		// would exist under neither its staged nor its final name, and a crash there strands it
+		var awayS []string
+		for _, in := range e.findInstrs(fn, "call(os.Rename)(p0, §)", false) {
+			if e.InstrStr(in) != "call(os.Rename)(p0, p1)" {
+				awayS = append(awayS, e.InstrStr(in))
+			}
+		}
+		r.Check(len(awayS) == 0, "R06.3", "fileutil.Move: the source is renamed only onto the final name", e.Pos(fn.Pos()),
+			"the source is first renamed to an intermediate name: a crash before the second rename leaves the file under neither its staged nor its final name (Recover then drops the companion as an orphan and the logged file is never delivered): "+strings.Join(awayS, "; "), 1, awayS...)
 		n := e.Guarded(r, "R06.3", "fileutil.Move: Rename(<dst>.lck, <dst>)", fn, e.instrMatch("call(os.Rename)("+tmp+", p1)"), cls,
-			func(l LabelSet) bool { return l.Has("inTmp") }, "source renamed or copied into <dst>.lck successfully")
-		r.Min("R06.3", "final renames in Move", n, 1)
+			func(l LabelSet) bool { return l.Has("copied") }, "source copied into <dst>.lck completely")
+		r.Min("R06.3", "final renames of a copy in Move", n, 1)
 		n = e.Guarded(r, "R06.3", "fileutil.Move: os.Remove(src)", fn, e.instrMatch("call(os.Remove)(p0)"), cls,
-			func(l LabelSet) bool { return l.Has("copied") }, "copy into <dst>.lck succeeded")
+			func(l LabelSet) bool { return l.HasAll("copied", "inPlace") }, "copied and the copy has its final name")
 		r.Min("R06.3", "source removals in Move", n, 1)
 		var dsts []string
 		for _, in := range e.findInstrs(fn, "call(«(os.Rename|fileutil.Copy|os.Create|os.WriteFile)»)§", false) {
@@ -167,18 +176,23 @@ func rulesC06(e *Engine, r *Report) {
 			if e.CalleeKey(in.(ssa.CallInstruction).Common()) == "os.Create" || e.CalleeKey(in.(ssa.CallInstruction).Common()) == "os.WriteFile" {
 				d = e.Canon(args[0])
 			}
-			if d == "p1" && !strings.HasPrefix(e.InstrStr(in), "call(os.Rename)("+tmp+", p1)") {
-				dsts = append(dsts, e.InstrStr(in))
+			is := e.InstrStr(in)
+			if d == "p1" && !strings.HasPrefix(is, "call(os.Rename)("+tmp+", p1)") && !strings.HasPrefix(is, "call(os.Rename)(p0, p1)") {
+				dsts = append(dsts, is)
 			}
 		}
-		r.Check(len(dsts) == 0, "R06.3", "fileutil.Move: <dst> is produced only by the final rename", e.Pos(fn.Pos()),
+		r.Check(len(dsts) == 0, "R06.3", "fileutil.Move: <dst> is produced only by a rename", e.Pos(fn.Pos()),
 			"the destination name is written directly (a crash leaves a truncated file under its final name): "+strings.Join(dsts, "; "), 1)
+		nOK := 0
 		for _, rw := range e.returnWorlds(r, "R06.3", fn, cls) {
-			if rw.W.Has("ret0=nil") {
-				r.Check(rw.W.Has("inPlace"), "R06.3", "fileutil.Move: return nil "+rw.W.String(), e.InstrPos(rw.In),
-					"Move reports success although the final rename did not succeed", 1, rw.W.String())
+			v := e.Canon(rw.In.(*ssa.Return).Results[0])
+			if rw.W.Has("ret0=nil") || v == "nil" || v == "call(os.Remove)(p0)" {
+				nOK++
+				r.Check(rw.W.Has("inPlace"), "R06.3", "fileutil.Move: success only with the final name in place "+rw.W.String(), e.InstrPos(rw.In),
+					"Move can report success although no rename onto the final name succeeded", 1, rw.W.String())
 			}
 		}
+		r.Min("R06.3", "success returns of Move", nOK, 1)
 	}
 
 	// ---------------------------------------------------------------- R06.4
